@@ -546,7 +546,7 @@ impl<'a> Lexer<'a> {
 
                 // so far the only token type that can have a null character reach push
                 // because it adds all chars, mostly indiscriminately
-                if !end && c != '\0' {
+                if !end && (c != '\0' || !self.at_end) {
                     self.current_characters.push(c);
                 }
 
@@ -590,7 +590,7 @@ impl<'a> Lexer<'a> {
 
                 // so far the only token type that can have a null character reach push
                 // because it adds all chars, mostly indiscriminately
-                if !end && c != '\0' {
+                if !end && (c != '\0' || !self.at_end) {
                     self.current_characters.push(c);
                 }
 
